@@ -168,6 +168,12 @@ def gen_spec(rng, tier="quick", profile=None):
     vars_ = []
     # keep the joint small enough for Polar: cap the product of domain sizes
     cap = 700 if tier == "quick" else 1600
+    # Polar's analysis time is governed by the largest CPT (rows = product of the parents' domain sizes):
+    # <= 8 rows: < 4 s, 12 rows: ~7-25 s, >= 16 rows: minutes
+    if tier == "quick":
+        max_rows = rng.choice([8, 8, 8, 8, 9])
+    else:
+        max_rows = rng.choice([8, 8, 9, 9, 12, 12, 12, 16])
     prod = 1
     for i, nm in enumerate(names):
         k = rng.choice([2, 2, 2, 3, 3, 4])
@@ -194,7 +200,7 @@ def gen_spec(rng, tier="quick", profile=None):
         for c in cands:
             if len(parents) >= npar:
                 break
-            if rows_n * len(vars_[c]["domain"]) > 27:
+            if rows_n * len(vars_[c]["domain"]) > max_rows:
                 continue
             parents.append(c)
             rows_n *= len(vars_[c]["domain"])
@@ -209,7 +215,7 @@ def gen_spec(rng, tier="quick", profile=None):
         feats.add(f"parents-{len(pnames)}")
         feats.add(f"domain-{k}")
     feats.add(f"vars-{n}")
-    if any(any(x in ("1e-05",) or len(x) > 6 for x in r) for v in vars_ for r in v["rows"]):
+    if any(any(0 < Fraction(x) < Fraction(1, 10 ** 4) for x in r) for v in vars_ for r in v["rows"]):
         feats.add("tiny-probabilities")
     if any(any(Fraction(x) == 0 for x in r) for v in vars_ for r in v["rows"]):
         feats.add("zero-probabilities")
